@@ -34,6 +34,7 @@ package common
 //@   ensures [non-negative] val(v) >= 0
 //@   assumes x == ExtraStoragePriceStep ==> val(v) == 10000
 //@   assumes x == "89.87671232" ==> val(v) == 8987671232   -- C25: the amount of the last legacy mint batch (kernel/mint.go lastMintDistribution)
+//@   assumes [c17-decode] val(v) == AmountOfVal(kvstr(x)) -- C17: ASSUMED, deterministic in the text (codec pair with Integer.String, zz_contracts_c17_verif.go)
 
 //@ -- x * 10^8 (math.Pow(10, 8) is exact)
 //@ func NewInteger(x)
